@@ -1,5 +1,5 @@
 """C07 - core packets match the published protocol for every supported release."""
-import common, codec, gen, gen_tables, c05
+import common, codec, gen, gen_tables, c05, reent
 from codec import Buf
 from common import run_model, res_decode, exn_name
 
@@ -182,6 +182,21 @@ def run(chk):
         body = c05.varint(sid) + r[1]
         exp = c05.varint(len(body)) + body
         what = None
+        # ... and after writes that failed (the socket broke; a field could not be encoded): the error is the caller's to handle,
+        # the next packet must still be the published bytes
+        try:
+            pk.write(reent.FailingSink(rng.choice([0, 0, 1])))
+        except Exception:
+            pass
+        if vals and rng.random() < 0.3:
+            bad_pk = cls(context=shared)
+            for nm, py, _m in vals:
+                setattr(bad_pk, nm, py)
+            setattr(bad_pk, vals[-1][0], object())
+            try:
+                bad_pk.write(Buf())
+            except Exception:
+                pass
         try:
             got = c05.frame_of(pk)
             if got != exp:
@@ -203,7 +218,7 @@ def run(chk):
         if what:
             chk.violation('reused-context', 'reused:' + key, dict(case=dict(case, previous_release_on_this_context=prev, values=repr([(n, py) for n, py, _m in vals])[:600]),
                                                                    expected=exp.hex()[:600], observed=got.hex()[:600] if got else None),
-                          '%s at release %d on a context previously used at release %s %s' % (NAMES[p], v, prev, what))
+                          '%s at release %d on a context previously used at release %s, after a write that failed: %s' % (NAMES[p], v, prev, what))
         prev = v
     if live:
         (v, p, *_), fr = live[len(live) // 2]
